@@ -1239,7 +1239,8 @@ class RefWorlds:
                 for a in content["archs"]:
                     cs = [c for c in range(self.nreg) if a["bytes"][c // 8] >> (c % 8) & 1] if len(a["bytes"]) * 8 >= self.nreg else []
                     for ident, vals in a["rows"]:
-                        m[ident] = dict(zip(cs, vals))
+                        # every cell is sent as a u64 token; the harness types keep what fits their payload
+                        m[ident] = {c: norm_val(c, v) for c, v in zip(cs, vals)}
                 self.maps[dst] = m
                 self.res[dst] = list(content["res"])
                 self.ever[dst] = set(m) | set(content["free"])
@@ -1524,7 +1525,7 @@ def oracle_case(impl_case):
                     cs = [c for c in range(nreg) if len(a["bytes"]) * 8 > c and a["bytes"][c // 8] >> (c % 8) & 1]
                     for _, vals in a["rows"]:
                         for c, v in zip(cs, vals):
-                            exp["E:%d:%d" % (c, v)] += 1
+                            exp["E:%d:%d" % (c, norm_val(c, v))] += 1
                 for j, v in enumerate(content["res"]):
                     exp["E:%d:%d" % (100 + j, v)] += 1
             else:
@@ -1677,6 +1678,14 @@ def safe_oracle_case(c):
 
 
 def engine(seed, tier):
+    """One run at a time per (seed, tier): checks of different properties started together share the
+    run (the first computes it, the others find it in the cache) instead of sharing a work directory."""
+    from common import Lock
+    with Lock("wh-run-%s-%s" % (seed, tier)):
+        return _engine(seed, tier)
+
+
+def _engine(seed, tier):
     """Run (or fetch from cache) the world-history run. Returns dict with
     'cases' (ops), 'impl' & 'model' parsed traces, 'oracle' results, stats."""
     import pickle
